@@ -50,6 +50,9 @@ func drawCfg(c *core.RunCtx) cfg {
 	g.subCrashPm = pick(t, 0, 1, 2, 4)
 	g.backPressPm = pick(t, 0, 0, 50, 200)
 	g.template = pick(t, 0, 0, 1, 2)
+	// production's raft loop finds several queued messages/ticks per StepNode:
+	// sometimes an input is only queued and the node is stepped later
+	g.lazyProcPm = pick(t, 0, 100, 300, 600)
 	if c.Prop == "C01" && g.wConf == 0 && t.Choose(2) == 0 {
 		g.wConf = 10
 	}
@@ -167,7 +170,12 @@ func (s *sim) event(kind int) {
 			return
 		}
 		c.Log("tick", "r%d", r.id)
-		s.tickOf(r)
+		if r.removing == 0 && t.Bool(s.cfg.lazyProcPm/2) {
+			r.n.Tick()
+			r.pending = true
+		} else {
+			s.tickOf(r)
+		}
 	case 1: // deliver
 		s.deliverOne(true)
 	case 2: // propose
@@ -336,7 +344,12 @@ func (s *sim) deliverOne(faults bool) {
 	mc := m
 	mc.Entries = append([]pb.Entry(nil), m.Entries...)
 	to.n.Step(context.Background(), mc)
-	s.process(to)
+	if faults && t.Bool(s.cfg.lazyProcPm) {
+		to.pending = true
+		c.Probe("input_queued_without_step")
+	} else {
+		s.process(to)
+	}
 	if m.Type == pb.MsgSnap && from.up && !f.dup {
 		st := raft.SnapshotFinish
 		if faults && t.Bool(100) {
